@@ -38,6 +38,7 @@ CONTRACTS = {
         # ONE translation for every consumer: the batch-aware reverse map also used by map_inputs_to_params
         ensures=["result == build_reverse_rename_map(self._rename_history, 'inputs').get(param, param)"],
         modifies=[],
+        pure=True,  # callers see the object model's function of (self, param), constrained by the ensures
     ),
     GN + "GraphNode.map_inputs_to_params": dict(
         props=["C05", "C06"],
@@ -76,3 +77,72 @@ CONTRACTS = {
         modifies=[],
     ),
 }
+
+IS = "graph/input_spec.py:"
+ORIG = "self._resolve_original_input_name(param)"
+INNER_DEFAULT = "any(" + ORIG + " in n.inputs and bool(n.has_default_for(" + ORIG + ")) for n in self._graph._nodes.values())"
+
+CONTRACTS.update({
+    GN + "GraphNode._original_clone": dict(
+        props=["C06", "C10"],
+        params={"self": OBJ("GraphNode")},
+        returns=ANY,
+        imports=BRM,
+        ensures=[
+            "isinstance(self._clone, list) or result is self._clone",
+            "not isinstance(self._clone, list) or len(result) == len(self._clone)",
+            "not isinstance(self._clone, list) or all(result[i] == build_reverse_rename_map(self._rename_history, 'inputs').get(self._clone[i], self._clone[i]) for i in range(len(self._clone)))",
+        ],
+        modifies=[],
+    ),
+    GN + "GraphNode.has_default_for": dict(
+        props=["C05", "C06"],
+        params={"self": OBJ("GraphNode"), "param": STR},
+        returns=BOOL,
+        # a wrapper input has a default exactly when its ORIGINAL inner name is bound in the inner graph or defaulted by an inner consumer
+        ensures=["result == (param in self.inputs and (" + ORIG + " in self._graph.inputs.bound or " + INNER_DEFAULT + "))"],
+        modifies=[],
+    ),
+    GN + "GraphNode.get_default_for": dict(
+        props=["C05", "C06"],
+        params={"self": OBJ("GraphNode"), "param": STR},
+        returns=ANY,
+        raises={"KeyError": "not (" + ORIG + " in self._graph.inputs.bound or " + INNER_DEFAULT + ")"},
+        ensures=[
+            # an inner binding wins over inner signature defaults, looked up under the original name
+            ORIG + " not in self._graph.inputs.bound or result is self._graph.inputs.bound[" + ORIG + "]",
+            ORIG + " in self._graph.inputs.bound or any(" + ORIG + " in n.inputs and bool(n.has_default_for(" + ORIG + ")) and result is n.get_default_for(" + ORIG + ") for n in self._graph._nodes.values())",
+        ],
+        modifies=[],
+        loops=[{"invariant": ["not any(" + "original_param in n.inputs and bool(n.has_default_for(original_param)) for n in _seq[:_i])"]}],
+    ),
+    IS + "_collect_bound_values": dict(
+        props=["C05", "C08"],
+        params={"nodes": DICT(STR, OBJ("HyperNode")), "bound": DICT(STR, ANY)},
+        returns=DICT(STR, ANY),
+        imports={"GraphNode": "hypergraph.nodes.graph_node"},
+        ensures=[
+            # the graph's own bindings always win
+            "all(k in result and result[k] is bound[k] for k in bound)",
+            # every inner binding of a nested graph surfaces under the wrapper's CURRENT name of that input
+            "all(not isinstance(n, GraphNode) or all(n._resolve_original_input_name(p) not in n.graph.inputs.bound or p in result for p in n.inputs) for n in nodes.values())",
+            # and nothing else appears: each extra key is a wrapper input whose original name is bound inside, with that value
+            "forall_keys(lambda k: k not in result or k in bound or any(isinstance(n, GraphNode) and k in n.inputs and n._resolve_original_input_name(k) in n.graph.inputs.bound and result[k] is n.graph.inputs.bound[n._resolve_original_input_name(k)] for n in nodes.values()), result)",
+        ],
+        modifies=[],
+        loops=[
+            {"invariant": [
+                "all(k in all_bound and all_bound[k] is bound[k] for k in bound)",
+                "all(not isinstance(n, GraphNode) or all(n._resolve_original_input_name(p) not in n.graph.inputs.bound or p in all_bound for p in n.inputs) for n in _seq[:_i])",
+                "forall_keys(lambda k: k not in all_bound or k in bound or any(isinstance(n, GraphNode) and k in n.inputs and n._resolve_original_input_name(k) in n.graph.inputs.bound and all_bound[k] is n.graph.inputs.bound[n._resolve_original_input_name(k)] for n in _seq[:_i]), all_bound)",
+            ]},
+            {"invariant": [
+                "all(k in all_bound and all_bound[k] is bound[k] for k in bound)",
+                "all(not isinstance(n, GraphNode) or all(n._resolve_original_input_name(p) not in n.graph.inputs.bound or p in all_bound for p in n.inputs) for n in _seq0[:_i0])",
+                "all(node._resolve_original_input_name(p) not in node.graph.inputs.bound or p in all_bound for p in _seq[:_i])",
+                "forall_keys(lambda k: k not in all_bound or k in bound or any(isinstance(n, GraphNode) and k in n.inputs and n._resolve_original_input_name(k) in n.graph.inputs.bound and all_bound[k] is n.graph.inputs.bound[n._resolve_original_input_name(k)] for n in _seq0[:_i0 + 1]), all_bound)",
+                "isinstance(node, GraphNode)", "inner_bound is node.graph.inputs.bound",
+            ]},
+        ],
+    ),
+})
